@@ -72,6 +72,14 @@ def gen(rng, tier):
             c["data"] = [[row[j] for j in perm] for row in c["data"]]
             c["kinds"] = ["pgen"]
         yield c
+        if t % 35 == 3:
+            # a file that lists its samples and holds no variant at all (what a region without variants leaves behind when it
+            # is written out): every load – restricted or not, bulk or streaming, VCF or PGEN – still names the file's samples
+            yield {"samples": c["samples"], "variants": [], "data": [[] for _ in c["samples"]], "kinds": ["vcf", "pgen"], "restrictions": [
+                {"region": None, "samples": None, "ids": None, "max": None, "chunk": None},
+                {"region": None, "samples": c["samples"][:1] + ["zz"], "ids": None, "max": None, "chunk": 2},
+                {"region": None, "samples": None, "ids": ["nosuch"], "max": None, "chunk": None},
+                {"region": None, "samples": c["samples"][::-1], "ids": None, "max": 3, "chunk": 1}]}
 
 
 def region_str(r):
@@ -81,7 +89,7 @@ def region_str(r):
     return c if a is None else (f"{c}:{a}-" if b is None else f"{c}:{a}-{b}")
 
 
-def read_one(kind, path, r, streaming):
+def read_one(kind, path, r, streaming, shared=None):
     from haptools import data as D
 
     with C.capture_logs() as cap:
@@ -90,6 +98,9 @@ def read_one(kind, path, r, streaming):
         else:
             g = D.GenotypesVCF(path, log=cap.logger)
         kw = dict(region=region_str(r["region"]), samples=None if r["samples"] is None else set(r["samples"]), variants=None if r["ids"] is None else set(r["ids"]))
+        if shared is not None:
+            # the caller's own set objects, used for one load after the other (bulk, streaming, the other file format)
+            kw["samples"], kw["variants"] = shared["samples"], shared["variants"]
         if streaming:
             recs = list(g.__iter__(**kw))
             out = {"samples": [str(s) for s in g.samples], "variants": [{"id": str(x.variants["id"]), "chrom": str(x.variants["chrom"]), "pos": int(x.variants["pos"])} for x in recs], "cols": [[[int(v) for v in row] for row in np.asarray(x.data)] for x in recs]}
@@ -117,12 +128,14 @@ def impl(case):
     out = {"full": {}, "restricted": []}
     for kind, path in files:
         out["full"][kind] = read_one(kind, path, {"region": None, "samples": None, "ids": None, "max": None, "chunk": None}, False)
-    for r in case["restrictions"]:
+    for ri, r in enumerate(case["restrictions"]):
         e = {}
-        for kind, path in files:
-            e[kind] = C.guarded(read_one, kind, path, r, False)
+        # every other restriction: one pair of set objects for all the loads of this restriction (PGEN first)
+        shared = dict(samples=None if r["samples"] is None else set(r["samples"]), variants=None if r["ids"] is None else set(r["ids"])) if ri % 2 == 0 else None
+        for kind, path in (files[::-1] if shared else files):
+            e[kind] = C.guarded(read_one, kind, path, r, False, shared)
             if r["max"] is None:
-                e[kind + "_iter"] = C.guarded(read_one, kind, path, r, True)
+                e[kind + "_iter"] = C.guarded(read_one, kind, path, r, True, shared)
         out["restricted"].append(e)
     return out
 
@@ -156,7 +169,8 @@ def norm_read(o):
         data = [[pg_norm(c) for c in row] for row in data]
     empty = (not o["variants"]) or (not o["samples"]) or data in ([], None) or all(len(r) == 0 for r in data)
     if empty:
-        return {"empty": True}
+        # an empty matrix still belongs to the samples that were selected (none, when the selection matched nobody)
+        return {"empty": True, "samples": list(o["samples"])}
     return {"samples": o["samples"], "variants": o["variants"], "data": data}
 
 
@@ -219,7 +233,7 @@ def oracle(case, obs):
             g = norm_read(got)
             if C.canon(g) != C.canon(want):
                 return f"{kind} read restricted by {r} returned {g}; reading everything and subsetting gives {want}"
-            if want == {"empty": True} and not got.get("warned"):
+            if want.get("empty") and not got.get("warned"):
                 return f"{kind} read restricted by {r} matched nothing but no warning was issued"
             if r["max"] is None:
                 it = e[kind + "_iter"]
@@ -227,11 +241,11 @@ def oracle(case, obs):
                     return f"{kind} streaming iterator with {r} raised {it}"
                 itv = [v["id"] for v in it["variants"]]
                 wv = [v["id"] for v in want.get("variants", [])] if "variants" in want else []
-                if want != {"empty": True} and itv != wv:
+                if not want.get("empty") and itv != wv:
                     return f"{kind} streaming iterator with {r} yielded {itv}, bulk read gives {wv}"
-                if want == {"empty": True} and it["samples"] and itv:
+                if want.get("empty") and it["samples"] and itv:
                     return f"{kind} streaming iterator with {r} yielded {itv} for an empty match"
-                if want != {"empty": True}:
+                if not want.get("empty"):
                     # the records are kept (list(...)) and looked at afterwards: each must still hold its own genotypes
                     if it["samples"] != want["samples"]:
                         return f"{kind} streaming iterator with {r} reports samples {it['samples']}, bulk read gives {want['samples']}"
@@ -273,7 +287,7 @@ def describe(case, obs):
             tags.append("max_variants")
     if any(len(v["alleles"][0]) > 1 for v in case["variants"]):
         tags.append("multi-base-REF")
-    if isinstance(obs, dict) and "restricted" in obs and any(norm_read(e["vcf"]) == {"empty": True} for e in obs["restricted"] if isinstance(e.get("vcf"), dict)):
+    if isinstance(obs, dict) and "restricted" in obs and any(norm_read(e["vcf"]).get("empty") for e in obs["restricted"] if isinstance(e.get("vcf"), dict)):
         tags.append("empty-match")
     return sorted(set(tags))
 
